@@ -24,7 +24,7 @@
 (* Steps: next, next_back (double-ended kinds), and nth(k) incl. the         *)
 (* overshooting ones that drain the iterator.                                *)
 (***************************************************************************)
-EXTENDS MapOps, TLC
+EXTENDS MapOps, TLC, TrustIdx
 
 CONSTANT MaxSrc          \* source lengths 0..MaxSrc
 
@@ -93,6 +93,18 @@ LowerRollingIter(L, w) ==
     Trust(Zip(Src(L), Chain(Rep(w - 1), Src(L))), L)
 
 Truthful(t) == Decl(t) = Yield(t)
+\* the closed forms of TrustIdx.tla (which TrustProof.tla proves equal to the required length for EVERY source
+\* length and parameter) are what the combinator trees yield - checked here over the whole band
+ClosedFormsAgree ==
+    \A LL \in 0..MaxSrc :
+      /\ \A n \in -(LL + 3)..(LL + 3) :
+            /\ Yield(LowerVShift(LL, n)) = YShift(LL, n)
+            /\ Yield(LowerVDiff(LL, n))  = YDiff(LL, n)
+            /\ Yield(LowerVPct(LL, n))   = YPct(LL, n)
+            /\ ShiftSubtractionGuarded(LL, n)
+      /\ \A v \in 0..LL, k \in 0..(LL + 2), sort \in BOOLEAN :
+            Yield(LowerPartition(LL, v, k, sort)) = YPartition(LL, v, k, sort)
+      /\ \A w \in 1..(LL + 2) : Yield(LowerRollingIter(LL, w)) = YRolling(LL, w)
 \* the LOWER bound of the size hint a term announces: a filter promises nothing, the std combinators
 \* propagate the bounds of their parts, the library's wrapper announces its declared length as both bounds
 RECURSIVE HintLo(_)
